@@ -96,6 +96,9 @@ def findings(inp, res):
                              observed="thread A runs %d lines, thread B %d lines, then both finish: %s instead of %s" % (
                                  r["bad"]["a_lines"], r["bad"]["b_lines"], str(r["bad"]["interleaved"])[:200], str(r["bad"]["alone"])[:200])))
             break
+    if res.get("cdb_fresh"):
+        hits.append(dict(kind="c09-cdb-fresh", id="CDB decode / encode results are shared between calls (a caller's change shows up in a later result)",
+                         observed=res["cdb_fresh"]))
     dec = res.get("decode") or {}
     if dec.get("bad"):
         hits.append(dict(kind="c09-decode", id="decode: decoding a response changes (or aliases) the result an earlier decode returned",
@@ -136,6 +139,11 @@ def replay(obj):
         res = run_impl(dict(histories=[], pairs=[], seed=int(os.environ.get("VERIF_SEED", "20260929")), n_decode=3))
         bad = (res.get("decode") or {}).get("bad")
         return bad is None, ("still: %s" % bad["what"] if bad else "decoded results are isolated")
+    if obj.get("kind") == "c09-cdb-fresh":
+        summary, _ = vlib.translate()
+        inp = build_input(summary, int(os.environ.get("VERIF_SEED", "20260929")), "quick")
+        res = run_impl(dict(histories=inp["histories"][:200], pairs=[]))
+        return not res.get("cdb_fresh"), ("still: %s" % res["cdb_fresh"] if res.get("cdb_fresh") else "results are fresh objects")
     if obj.get("kind") == "c09-mutation":
         res = run_impl(dict(histories=[], pairs=[]))
         hits = [h for h in findings(dict(histories=[], pairs=[]), res) if h["id"] == obj["id"]]
